@@ -506,17 +506,17 @@ class Syntax(JupyterMixin):
         if self.line_range:
             lines = lines[line_offset:end_line]
 
-        if self.indent_guides and not options.ascii_only:
+        if self.indent_guides and not options.ascii_only and lines:
             style = (
                 self._get_base_style()
                 + self._theme.get_style_for_token(Comment)
                 + Style(dim=True)
             )
-            lines = (
-                Text("\n")
-                .join(lines)
-                .with_indent_guides(self.tab_size, style=style)
-                .split("\n")
+            guides_text = Text("\n").join(lines)
+            # with_indent_guides drops one trailing new line
+            guides_text.append("\n")
+            lines = guides_text.with_indent_guides(self.tab_size, style=style).split(
+                "\n", allow_blank=True
             )
 
         numbers_column_width = self._numbers_column_width
